@@ -377,7 +377,8 @@ carquet_status_t carquet_batch_reader_next(
          * - mmap is active
          * - Column is REQUIRED (no nulls, no definition levels)
          * - Page is zero-copy eligible (uncompressed, PLAIN, fixed-type)
-         * - Entire page fits in batch
+         * - The page holds exactly the rows of this batch (every column of a
+         *   batch must deliver rows_to_read rows)
          */
         bool try_zero_copy = (batch_reader->reader->mmap_info != NULL) &&
                              (max_def == 0) &&
@@ -396,7 +397,7 @@ carquet_status_t carquet_batch_reader_next(
         bool use_zero_copy = col_reader->page_loaded &&
                              col_reader->decoded_ownership == CARQUET_DATA_VIEW &&
                              col_reader->page_values_read == 0 &&
-                             col_reader->page_num_values <= (int32_t)rows_to_read &&
+                             col_reader->page_num_values == (int32_t)rows_to_read &&
                              max_def == 0;
 
         if (use_zero_copy) {
